@@ -310,3 +310,29 @@ func runTmpl(c *Case, tree *Tree) string {
 	}
 	return "tmpl-badtype:" + valueStr(v)
 }
+
+// runWide: extra = "N;i;j".  A document <r> with N children <a k="1"/> (all alike: only their position tells them
+// apart); the union of the i-th and the j-th child, and of their attributes, counted by the package.
+func runWide(c *Case) string {
+	f := strings.Split(c.Extra, ";")
+	n, _ := strconv.Atoi(f[0])
+	i, _ := strconv.Atoi(f[1])
+	j, _ := strconv.Atoi(f[2])
+	d := Doc{{Depth: 0, Kind: 'r'}, {Depth: 1, Kind: 'e', Name: "r"}}
+	for k := 0; k < n; k++ {
+		d = append(d, Rec{Depth: 2, Kind: 'e', Name: "a", Attrs: []Attr{{Name: "k", Val: "1"}}})
+	}
+	tree := BuildTree(d)
+	cnt := func(expr string) string {
+		e, err := xpath.Compile(expr)
+		if err != nil {
+			return "cerr"
+		}
+		if v, ok := e.Evaluate(tree.At(Ref{0, -1}, true)).(float64); ok {
+			return strconv.Itoa(int(v))
+		}
+		return "badtype"
+	}
+	return "wide:" + cnt(fmt.Sprintf("count(/r/a[%d] | /r/a[%d])", i, j)) + "," + cnt(fmt.Sprintf("count(/r/a[%d]/@k | /r/a[%d]/@k)", i, j)) +
+		"," + cnt(fmt.Sprintf("count(/r/(a[%d], a[%d]))", i, j))
+}
